@@ -38,6 +38,32 @@ def opens():
         rows.append(f"| {f['id']} | {f['property']} | {esc(f['what'])[:300]} | {esc(f.get('why_recorded', ''))} |")
     return "\n".join(rows)
 
+
+def status():
+    import glob
+    man = json.load(open(os.path.join(root, 'MANIFEST.json')))
+    rows = ["| property | theorems (all discharged, axioms ⊆ {propext, Classical.choice, Quot.sound}) | quick run: cases / distinct non-trivial | open findings | repaired |",
+            "|----------|------------|-----------------|---------------|----------|"]
+    for c in man['checks']:
+        pid = c['property_id']
+        try:
+            ev = json.load(open(os.path.join(root, 'evidence', pid + '.json')))['coverage']
+        except Exception:
+            ev = {}
+        op = sorted({f['id'] for f in kf if f['property'] == pid and f['status'] == 'open'})
+        fx = sorted({f['id'] for f in kf if f['property'] == pid and f['status'] == 'fixed'})
+        rows.append(f"| {pid} | {ev.get('discharged', '?')}/{ev.get('obligations', '?')} | {ev.get('evaluations', '?')} / {ev.get('distinct_nontrivial', '?')} | {', '.join(op) or '–'} | {', '.join(fx) or '–'} |")
+    return "\n".join(rows)
+
+sec110 = f"""### 11.0 Status at a glance
+
+Generated from `MANIFEST.json`, the evidence files of the last run against /repo and
+`known_findings.json`. All twenty properties are claimed; every claim is "Proof (Lean 4), partial" in
+the sense of §3: the theorems are about the model, the tie to the code is the correspondence run.
+
+{status()}
+"""
+
 seedtable = subprocess.run([sys.executable, os.path.join(root, 'bin/seedtable.py')], capture_output=True, text=True).stdout
 
 part3 = rd('docs/asbuilt-part3.md')
@@ -78,7 +104,9 @@ was widened so that the behaviour is exercised and judged).
 {seedtable}
 """
 
-body = "\n".join([rd('docs/asbuilt-part1.md').rstrip(), "", rd('docs/asbuilt-part2.md').rstrip(), "", part3.rstrip(), "",
+p1 = rd('docs/asbuilt-part1.md')
+i11 = p1.index('### 11.1')
+body = "\n".join([p1[:i11].rstrip(), "", sec110.rstrip(), "", p1[i11:].rstrip(), "", rd('docs/asbuilt-part2.md').rstrip(), "", part3.rstrip(), "",
                   sec114.rstrip(), "", sec115.rstrip(), "", rd('docs/asbuilt-part4.md').rstrip(), ""])
 
 p = os.path.join(root, 'DESIGN.md')
